@@ -151,15 +151,19 @@ def build_lib(extra=(), wrap="VANILLA", opt="-O0", srcs=None):
         if rc != 0:
             raise BuildError("ar failed: " + out)
         os.rename(ar + ".tmp", ar)
-        prune_cache(os.path.join(BUILD, "lib"), keep=6)
+        prune_cache(os.path.join(BUILD, "lib"), keep=12)
     return ar
 
 
 def prune_cache(d, keep):
+    """keep the `keep` newest entries and anything younger than two hours (concurrent checks of other
+    properties - or of mutated scratch trees - may be linking against an entry right now)"""
     try:
+        now = time.time()
         ents = sorted((os.path.getmtime(os.path.join(d, e)), e) for e in os.listdir(d))
-        for _, e in ents[:-keep]:
-            shutil.rmtree(os.path.join(d, e), ignore_errors=True)
+        for mt, e in ents[:-keep]:
+            if now - mt > 7200:
+                shutil.rmtree(os.path.join(d, e), ignore_errors=True)
     except OSError:
         pass
 
